@@ -721,7 +721,7 @@ def prepare(work, seed, tier, want_mu=True):
     vlib.build_harness(["c11dump"])
     exe = os.path.join(vlib.BIN, "c11dump")
     stamp = _sha(exe)
-    nprog, nscen = (1, 64) if tier == "quick" else (8, 64)   # one load of the std library per program dominates the cost
+    nprog, nscen = (1, 40) if tier == "quick" else (10, 40)   # one load of the std library per program dominates the cost
     os.makedirs(work, exist_ok=True)
     progs = []
     for k in range(nprog):
@@ -925,7 +925,8 @@ def run_model(pr):
     """runs the extracted Coq model on the muSSA translation -> dict(status, check, pts{valkey:set(label valkeys)},
     edges set((instrkey, calleekey)), reach set(fnkey))"""
     model = os.path.join(vlib.BIN, "c11model")
-    rc, out, err = vlib.sh2([model, pr["mu"]], timeout=1200)
+    # the extracted list functions are not tail recursive: run with an unlimited stack
+    rc, out, err = vlib.sh2("ulimit -s unlimited 2>/dev/null; exec '%s' '%s'" % (model, pr["mu"]), timeout=1200)
     if rc != 0:
         raise vlib.BuildError("c11model failed on %s" % pr["mu"], err[-3000:])
     nm = parse_names(pr["mu"] + ".names")
@@ -1022,7 +1023,7 @@ def sem_validation(pr, mod, want):
 def tie_reach_closure(pr):
     """extracted worklist model of CallGraphReachable on the impl's whole call graph == impl ReachableFunctions()"""
     cgp = os.path.join(pr["dir"], "cg.txt")
-    rc, out, err = vlib.sh2([os.path.join(vlib.BIN, "c11model"), "-reach", cgp], timeout=600)
+    rc, out, err = vlib.sh2("ulimit -s unlimited 2>/dev/null; exec '%s' -reach '%s'" % (os.path.join(vlib.BIN, "c11model"), cgp), timeout=600)
     if rc != 0 or "REACHSTATUS done" not in out:
         raise vlib.BuildError("c11model -reach failed on %s" % cgp, (out + err)[-2000:])
     model = set(int(l.split()[1]) for l in out.splitlines() if l.startswith("M "))
@@ -1101,7 +1102,8 @@ def noeffect_run(pr, work):
 
 
 def check_noeffect_errno(chk, work):
-    """corpus/c12/noeffect_errno: result of a no-effect intrinsic that returns an error is called through the interface"""
+    """corpus/c12/noeffect_errno (regression case of the repaired finding noeffect-intrinsic-error-result): the error
+    returned by syscall.Close is called through the interface; the call graph must have the edge to (syscall.Errno).Error"""
     src = os.path.join(vlib.VERIF, "corpus", "c12", "noeffect_errno")
     d = os.path.join(work, "noeffecterrno")
     exe = os.path.join(vlib.BIN, "c11dump")
@@ -1138,8 +1140,6 @@ def check_noeffect_errno(chk, work):
             % (callees, info["resolve_includes"]))
         chk.violation("noeffect-intrinsic-error-result", "call err.Error() on the result of the no-effect intrinsic syscall.Close has no "
                       "call-graph edge although (syscall.Errno).Error runs", dd)
-    elif executed:
-        chk.notes.append("stale_known_finding: noeffect-intrinsic-error-result no longer reproduces (edge present)")
     return info
 
 
